@@ -366,3 +366,74 @@ def i2_table(c1: int, c2: int, c3: int, c4: int, c5: int) -> bool:
     if res is None:
         return fw._index == -1
     return spec
+
+
+# ------------------------------------------------------------------------------------- I6 (E2)
+# CommonMark 0.30 section 6.5, written from the text: an absolute URI is a scheme (letter, then 1-31 letters,
+# digits, + . -), ':' and then characters other than ASCII control characters, space, < and >; an e-mail
+# address is the HTML5 non-normative regex.
+_EMAIL = (r"[a-zA-Z0-9.!#$%&'*+/=?^_`{|}~-]+@[a-zA-Z0-9](?:[a-zA-Z0-9-]{0,61}[a-zA-Z0-9])?"
+          r"(?:\.[a-zA-Z0-9](?:[a-zA-Z0-9-]{0,61}[a-zA-Z0-9])?)*")
+SPEC_AUTOLINK = r"<(?:[A-Za-z][A-Za-z0-9+.-]{1,31}:[^\x00-\x20\x7f<>]*|" + _EMAIL + r")>"
+_ESC_PREFIX = r"(?<!\\)(?:\\\\)*"      # "not escaped": the lemma is about the part after it
+
+
+def _autolink_body():
+    """AutoLink.pattern without its leading 'is not escaped' look-behind (the translator has no look-behind;
+    the prefix is compared literally, so any change to it makes the lemma inconclusive, not confirmed)"""
+    import re
+    import mistletoe.span_token as st
+    src = st.AutoLink.pattern.pattern
+    if not src.startswith(_ESC_PREFIX):
+        return None
+    return re.compile(src[len(_ESC_PREFIX):], st.AutoLink.pattern.flags & ~re.UNICODE | re.UNICODE)
+
+
+def i6_replay(label, witness):
+    """the real pattern accepts the witness, the spec grammar does not, and the prose 'x <witness> y'
+    does not come back as escaped text"""
+    import html
+    import re
+    import mistletoe
+    import mistletoe.span_token as st
+    real = st.AutoLink.pattern.fullmatch(witness) is not None
+    spec = re.fullmatch(SPEC_AUTOLINK, witness) is not None
+    if not real or spec:
+        return False, 'regex level: impl=%s spec=%s on %r' % (real, spec, witness)
+    text = 'x ' + witness + ' y'
+    out = mistletoe.markdown(text)
+    want = '<p>' + html.escape(text, quote=False) + '</p>\n'
+    return out != want, 'AutoLink.pattern accepts %r, CommonMark 6.5 does not; markdown(%r) = %r' % (witness, text, out)
+
+
+@rxlemma('I6.autolink-language', 'C14', covers=['span_token.py:AutoLink.pattern'], replay=i6_replay,
+         note='L(AutoLink.pattern after its escape look-behind) ⊆ L(CommonMark 6.5 autolink) on one-line texts of ANY length '
+              'without ASCII control characters (prose is words, punctuation and spaces); with control characters: information only')
+def i6_autolink_language():
+    import re
+    from vfy import rx
+    S = rx.Session()
+    pat = _autolink_body()
+    if pat is None:
+        S.verdict, S.message = 'UNKNOWN', 'AutoLink.pattern does not begin with the expected escape look-behind: not encodable'
+        return S.result()
+    impl = rx.match_language(pat, tail=rx.EPS)
+    spec = rx.match_language(re.compile(SPEC_AUTOLINK), tail=rx.EPS)
+    samples = ['<a:b>', '<ab:c>', '<ab: c>', '<re: x>', '<http://x.y/z?q=1>', '<a@b.c>', '<a@b>', '<a@-b>', '<ab:>', '<ab:<>', 'ab:c', '<ab:c',
+               '<a1+.-:x y>', '<x@y.zz.>', '<ab:\tc>', '<1b:c>', '<' + 'a' * 33 + ':c>', '<' + 'a' * 32 + ':c>', '<é:c>', '<ab:é>', '<>', '<ab>',
+               '<a@b.' + 'c' * 63 + '>', '<a@b.' + 'c' * 64 + '>', '<a b@c.d>', '<ab:c>d', ' <ab:c>']
+    S.validate('AutoLink', pat, impl, samples, fullmatch=True)
+    S.validate('AutoLink/spec', re.compile(SPEC_AUTOLINK), spec, samples, fullmatch=True)
+    prose = z3_star_no_controls()
+    S.expect_sat('AutoLink:impl', *rx.nonempty(impl, prose))
+    S.expect_sat('AutoLink:spec', *rx.nonempty(spec, prose))
+    S.expect_unsat('AutoLink:impl-within-spec', *rx.included(impl, spec, prose))
+    S.expect_unsat('AutoLink:impl-within-spec (control characters allowed)', *rx.included(impl, spec, None), info_only=True)
+    S.expect_unsat('AutoLink:spec-within-impl', *rx.included(spec, impl, prose), info_only=True)
+    return S.result()
+
+
+def z3_star_no_controls():
+    import z3
+    from vfy import rx
+    return z3.Star(rx.ranges_re(rx._complement([(0, 0x1f), (0x7f, 0x7f)] + rx.XWS_RANGES)))
